@@ -38,6 +38,7 @@ class StubExpr:
         self.name = name
         self.adds = adds_tester
         self.calls = list()
+        self.added = None
 
     def __len__(self):
         return 3
@@ -48,6 +49,7 @@ class StubExpr:
             k = f'_aux{len(testers)}'
             testers[k] = dict(type='bool', init=f'({k} <=> {self.name}in)',
                               trans=f"(({k}') <=> {self.name}in)", win=None)
+            self.added = (k, dict(testers[k]))
         return self.name
 
 
@@ -84,8 +86,13 @@ def _tester_obligations(run, label, d, var, funcs, sem0, sem_step, canary=True):
                z3.Implies(z3.And(n >= 0, trans, init0), v(n + 1)))
 
 
-def _frame(run, label, before, testers, added_expected=None):
+def _frame(run, label, before, testers, operands=()):
     same = all(k in testers and testers[k] == v for k, v in before.items())
+    # testers added by the operands (induction hypothesis) must survive too
+    for o in operands:
+        if getattr(o, 'added', None) is not None:
+            k, v = o.added
+            same = same and testers.get(k) == v
     run.oblige(f'{label}.frame: testers present before the call are unchanged (no key overwritten with different content)',
                z3.BoolVal(same), kind='frame')
 
@@ -106,7 +113,7 @@ def h_since(pre):
         before = copy.deepcopy(testers)
         f = _fn(functions, past._flatten_since)
         r = f((P, Q), testers, 'bool')
-        _frame(run, '_flatten_since', before, testers)
+        _frame(run, '_flatten_since', before, testers, (P, Q))
         run.oblige('_flatten_since: returns a fresh tester variable; operands flattened in Boolean context with the same testers',
                    z3.BoolVal(r in testers and r not in before
                               and all(c['context'] == 'bool' for c in P.calls + Q.calls)
@@ -119,6 +126,33 @@ def h_since(pre):
             run, '_flatten_since (p S q)', testers[r], r, fs,
             sem0=q(z3.IntVal(0)),
             sem_step=lambda n, prev: z3.Or(q(n + 1), z3.And(p(n + 1), prev)))
+    return h
+
+
+def h_since_const(left, right):
+    """`p S q` where an operand is a Boolean constant (terminal node)."""
+    def h(run, functions):
+        def mk(c, name):
+            return past.Nodes.Bool(c) if c else StubExpr(name, False)
+        P, Q = mk(left, 'opP'), mk(right, 'opQ')
+        testers = dict()
+        f = _fn(functions, past._flatten_since)
+        r = f((P, Q), testers, 'bool')
+        run.oblige('_flatten_since (constant operand): returns a tester variable',
+                   z3.BoolVal(r in testers))
+        if r not in testers:
+            return
+        fs = _funcs('opP', 'opQ', r)
+
+        def val(c, fn, n):
+            return z3.BoolVal(c == 'TRUE') if c else fn(n)
+        p = lambda n: val(left, fs['opP'], n)
+        q = lambda n: val(right, fs['opQ'], n)
+        _tester_obligations(
+            run, f'_flatten_since ({left or "p"} S {right or "q"})', testers[r], r, fs,
+            sem0=q(z3.IntVal(0)),
+            sem_step=lambda n, prev: z3.Or(q(n + 1), z3.And(p(n + 1), prev)),
+            canary=False)
     return h
 
 
@@ -167,7 +201,7 @@ def h_previous_expr(strong, pre):
         before = copy.deepcopy(testers)
         f = _fn(functions, past._flatten_previous)
         r = f(op, X, testers, 'bool')
-        _frame(run, '_flatten_previous', before, testers)
+        _frame(run, '_flatten_previous', before, testers, (X,))
         run.oblige('_flatten_previous: returns a fresh tester variable',
                    z3.BoolVal(r in testers and r not in before))
         if r not in testers:
@@ -375,6 +409,32 @@ E2E = [
     '--X TRUE', '-X FALSE', '-X TRUE', '--X FALSE', r'(-X q) /\ (--X p) /\ (-X p)',
     r'-[] -X p', r'(p S q) <=> -<> q', r'p /\ q',
 ]
+
+
+def generated_formulas(tier):
+    """All formulas up to nesting depth 2 over p, q, TRUE, FALSE (unary past
+    operators and negation over every depth-1 formula; S / conjunction with an
+    atom on one side)."""
+    atoms = ['p', 'q', 'TRUE', 'FALSE']
+    un = ['~', '-X', '--X', '-[]', '-<>']
+    d1 = list(atoms)
+    for o in un:
+        d1 += [f'{o} {a}' for a in atoms]
+    for a in atoms:
+        for b in atoms:
+            d1 += [f'({a} S {b})']
+    for a, b in (('p', 'q'), ('p', 'TRUE'), ('FALSE', 'q')):
+        d1 += [rf'({a} /\ {b})', rf'({a} \/ {b})']
+    out = list(d1)
+    for o in un:
+        out += [f'{o} ({x})' for x in d1 if x not in atoms]
+    for x in d1:
+        if x in atoms:
+            continue
+        for a in (('p', 'FALSE') if tier == 'quick' else atoms):
+            out += [f'(({x}) S {a})', f'({a} S ({x}))']
+        out += [rf'(({x}) /\ -X p)', rf'(({x}) \/ --X p)']
+    return sorted(set(out))
 
 
 def h_translate_e2e(formula, L):
